@@ -16,6 +16,12 @@ def run(tier):
         gen_pipeline.apply(chk, g, ["C04"])
     except ImportError:
         pass
+    try:
+        from checks import sb_pipeline
+        b = sb_pipeline.run(tier, chk.seed)
+        sb_pipeline.apply(chk, b, ["C04"])
+    except ImportError:
+        pass
     chk.assumptions = ["cost table literals in Conditions.tla are the consensus rule (a change to them is a violation by design)"]
     chk.extra["exhaustive"] = False
     return chk.finish()
